@@ -44,6 +44,7 @@ PROPS = {
         "assumptions": ["fewer than 2^32-2 chunks per stream (current_chunk_number is a u32)",
                         "the cipher enters as an arbitrary keystream/tag function; observables compared do not depend on it",
                         "brotli enters as dec : bytes -> bytes with dec (comp x) = x (decompressing one block's compressed bytes yields that block); not re-implemented",
+                        "C11_comp_stream_reader_refines / C11_comp_stream_agrees_whole_block (work package fsstack): the refined model whose decompressor STREAMS (CompLayerS.v: lazy input through Take, brotli-decompressor's buffer policy, abstract decoder step) refines a cursor over the plaintext too, under the DecoderLaws of CompFailSafeProofs.v, every block of the wire being a complete stream decoding to its slice, and NoNmiAtEnd (the decoder does not ask for input once a complete stream is on offer; needed for empty-buffer reads only; observed on the real decoder by job c08-stack); so every theorem stated for a stream refining a cursor holds of it",
                         "compression layer: |plain| < 2^63 (seek offsets are i64), footer 12+4*blocks bytes below 2^32 and below the bincode limit, compressed blocks below 4 GiB",
                         "the inner position of the compression reader while a decompressor is live is unspecified by the code and not observed",
                         "64-bit target: usize::try_from(u64) never fails"],
